@@ -8,86 +8,39 @@ Import ListNotations.
 Local Open Scope Z_scope.
 Local Arguments Ascii.eqb : simpl never.
 
-(** SEARCH through HandleSearch: the line is split by strings.Fields and the
-    criteria re-joined with single blanks *)
-Theorem search_cmd_exact tag cmd ks mb :
+(** SEARCH / UID SEARCH through SearchSelectedMailbox: the line is split by
+    strings.Fields and the criteria re-joined with single blanks *)
+Lemma selected_exact (by_uid : bool) ks mb :
   wf_prog ks = true -> mb_ok mb = true -> classify_line ks mb = None ->
   str_eqb (to_upper (nth 0 (fields (print_prog ks)) [])) (S_ "CHARSET") = false ->
-  search_cmd (tag :: cmd :: fields (print_prog ks)) (to_msgs mb) = ROk (spec_search_list ks mb).
+  search_selected go_text (fields (print_prog ks)) by_uid (to_msgs mb)
+  = ROk (map (if by_uid then m_uid else m_seq)
+           (map (to_msg mb) (filter (fun '(i, m) => spec_all (Z.of_nat (length mb)) (max_uid mb) ks i m) (numbered mb)))).
 Proof.
   intros W Hmb C NC. unfold classify_line in C. destruct (fields_stable (print_prog ks)) eqn:FS; [|discriminate].
   unfold fields_stable in FS. apply str_eqb_eq in FS.
   pose proof (print_not_blank ks mb W C) as NB.
   destruct (fields (print_prog ks)) as [|f1 fs] eqn:F.
   - cbn [join] in FS. rewrite <- FS in NB. now contradiction NB.
-  - unfold search_cmd, handle_search. cbn [nth] in NC.
-    replace (Z.of_nat (length (tag :: cmd :: f1 :: fs)) <? 3) with false by (symmetry; apply Z.ltb_ge; cbn [length]; lia).
-    cbn [nth]. rewrite NC, andb_false_r. cbn [andb].
-    replace (length (tag :: cmd :: f1 :: fs) <=? 2)%nat with false by (symmetry; apply Nat.leb_gt; cbn [length]; lia).
-    cbn [skipn]. rewrite FS. fold (search (to_msgs mb) (print_prog ks)).
-    destruct (search_exact ks mb W Hmb C) as [-> _]. reflexivity.
+  - unfold search_selected. cbn [nth] in NC. cbn [length Nat.ltb Nat.leb nth]. rewrite NC, andb_false_r. cbn [andb skipn].
+    rewrite FS, fill_max_to_msgs. now rewrite (evaluate_exact ks mb W Hmb C).
 Qed.
 
-(** ** UID SEARCH *)
-Lemma numbered_uids l : forall i, map m_uid (map to_msg (number_from i l)) = map (fun '(i, m) => s_uid m) (number_from i l).
-Proof. induction l as [|x l IH]; intros i; [reflexivity|]. cbn [number_from map]. now rewrite IH. Qed.
-
-Lemma filter_true {A} (f : A -> bool) l : (forall x, f x = true) -> filter f l = l.
-Proof. intros H. induction l as [|x l IH]; [reflexivity|]. cbn [filter]. now rewrite H, IH. Qed.
-
-Lemma uid_filter_eq va vb (P : Z * smsg -> bool) l :
-  (forall i m, P (i, m) = (va <=? s_uid m) && (s_uid m <=? vb)) -> forall i,
-  map m_uid (filter (fun m => (va <=? m_uid m) && (m_uid m <=? vb)) (map to_msg (number_from i l)))
-  = map (fun '(i, m) => s_uid m) (filter P (number_from i l)).
+Theorem search_cmd_exact tag cmd ks mb :
+  wf_prog ks = true -> mb_ok mb = true -> classify_line ks mb = None ->
+  str_eqb (to_upper (nth 0 (fields (print_prog ks)) [])) (S_ "CHARSET") = false ->
+  search_cmd (tag :: cmd :: fields (print_prog ks)) (to_msgs mb) = ROk (spec_search_list ks mb).
 Proof.
-  intros H. induction l as [|x l IH]; intros i; [reflexivity|].
-  cbn [number_from map filter to_msg m_uid]. rewrite (H i x).
-  destruct ((va <=? s_uid x) && (s_uid x <=? vb)); cbn [map]; now rewrite IH.
+  intros W Hmb C NC. unfold search_cmd, handle_search. cbn [skipn].
+  rewrite (selected_exact false ks mb W Hmb C NC). unfold spec_search_list. now rewrite map_seq_to_msg.
 Qed.
 
-Theorem uid_search_exact tag ks mb : wf_prog ks = true -> classify_uid ks = None ->
-  handle_uid_search (tag :: S_ "UID" :: S_ "SEARCH" :: prog_tokens ks) (to_msgs mb) = ROk (spec_uid_search_list ks mb)
-  /\ spec_uid_search ks mb = SOk (spec_uid_search_list ks mb).
+(** UID SEARCH: the same program, the same entries, their UIDs *)
+Theorem uid_search_cmd_exact tag uid cmd ks mb :
+  wf_prog ks = true -> mb_ok mb = true -> classify_line ks mb = None ->
+  str_eqb (to_upper (nth 0 (fields (print_prog ks)) [])) (S_ "CHARSET") = false ->
+  uid_search_cmd (tag :: uid :: cmd :: fields (print_prog ks)) (to_msgs mb) = ROk (spec_uid_search_list ks mb).
 Proof.
-  intros W C. unfold classify_uid in C.
-  destruct ks as [|k [|? ?]]; try discriminate. destruct k; try discriminate.
-  - (* ALL *) split; [|reflexivity]. unfold spec_uid_search_list, to_msgs, numbered.
-    rewrite filter_true by (intros [? ?]; reflexivity). cbv [handle_uid_search prog_tokens flat_map key_tokens app length].
-    change (ROk (map m_uid (map to_msg (number_from 1 mb))) = ROk (map (fun '(_, m) => s_uid m) (number_from 1 mb))).
-    now rewrite numbered_uids.
-  - (* UID a:b *) destruct s as [|[[d|]|[a|] [b|]] [|? ?]]; try discriminate.
-    destruct (digits_val a 0 <=? digits_val b 0) eqn:Le; [|discriminate]. apply Z.leb_le in Le.
-    unfold wf_prog in W. cbn in W. rewrite !andb_true_r in W. apply andb_true_iff in W as [Wa Wb].
-    destruct (numeral_digits a Wa) as [Hda Hnea]. destruct (numeral_digits b Wb) as [Hdb Hneb].
-    split; [|reflexivity].
-    unfold handle_uid_search, prog_tokens. cbn [flat_map key_tokens app print_set map join print_item print_snum length skipn].
-    set (r := a ++ colon :: b).
-    assert (Hr : forallb (fun c => negb (is_space c)) r = true).
-    { unfold r. rewrite forallb_app. apply andb_true_iff. split.
-      - revert Hda. apply forallb_impl. intros c Hc. destruct (digit_facts c Hc) as (_ & _ & _ & _ & _ & _ & -> & _). reflexivity.
-      - cbn [forallb]. apply andb_true_iff. split; [reflexivity|].
-        revert Hdb. apply forallb_impl. intros c Hc. destruct (digit_facts c Hc) as (_ & _ & _ & _ & _ & _ & -> & _). reflexivity. }
-    assert (Hrne : r <> []) by (unfold r; destruct a; discriminate).
-    assert (F : fields (S_ "UID" ++ sp :: r) = [S_ "UID"; r]).
-    { unfold fields. cbn [S_ list_ascii_of_string app]. cbn [fields_aux]. cbn.
-      rewrite <- (app_nil_r r) at 1. rewrite fields_aux_tok by exact Hr. cbn [fields_aux]. rewrite app_nil_r.
-      destruct (rev r) eqn:E.
-      - apply (f_equal (@rev _)) in E. rewrite rev_involutive in E. now subst.
-      - rewrite <- E, rev_involutive. reflexivity. }
-    replace (Z.of_nat 5 <? 4) with false by reflexivity.
-    assert (U : to_upper (S_ "UID" ++ sp :: r) = S_ "UID" ++ sp :: r).
-    { apply to_upper_nolower. rewrite !forallb_app. cbn. unfold r. rewrite forallb_app. cbn [forallb].
-      rewrite (digits_nolower a Hda), (digits_nolower b Hdb). reflexivity. }
-    rewrite U. replace (str_eqb (S_ "UID" ++ sp :: r) all_str) with false by reflexivity.
-    replace (contains (S_ "UID" ++ sp :: r) (S_ "UID ")) with true by (symmetry; apply has_prefix_contains; reflexivity).
-    rewrite F. cbn [uid_range_of]. replace (str_eqb (to_upper (S_ "UID")) (S_ "UID")) with true by reflexivity.
-    unfold r at 1. rewrite contains_single, existsb_app. cbn [existsb].
-    replace (Ascii.eqb colon colon) with true by reflexivity. rewrite orb_true_r. cbn [orb].
-    unfold r, split_byte. rewrite split_one_sep by (now apply digits_no_colon). cbn [rev app].
-    rewrite (atoi_val_numeral a Wa), (atoi_val_numeral b Wb).
-    unfold spec_uid_search_list, to_msgs, numbered. f_equal.
-    apply uid_filter_eq. intros i x.
-    cbn [spec_all forallb spec_eval set_has existsb item_has snum_val].
-    rewrite Z.min_l, Z.max_r by lia. rewrite orb_false_r, andb_true_r. reflexivity.
-  - destruct k; discriminate.
+  intros W Hmb C NC. unfold uid_search_cmd, handle_uid_search. cbn [skipn].
+  rewrite (selected_exact true ks mb W Hmb C NC). unfold spec_uid_search_list. now rewrite map_uid_to_msg.
 Qed.
